@@ -12,9 +12,14 @@ ND = -9999
 
 # ---------------------------------------------------------------- spec (independent, python ints)
 
+def f32(v):
+    return float(np.float32(v))
+
+
 def spec_rolling(xx, ws, nd, out, kernel=True):
-    """Return None if `out` satisfies the property, else a description."""
+    """Return None if `out` (float32 values) satisfies the property, else a description."""
     n = len(xx)
+    ndf = f32(nd)
     off = 0 if kernel else ws - 1
     if len(out) != n - off:
         return "length %d, expected %d" % (len(out), n - off)
@@ -23,12 +28,12 @@ def spec_rolling(xx, ws, nd, out, kernel=True):
         valid = [v for v in win if v != nd]
         o = out[i - off]
         if len(valid) == len(win):
-            if o != sum(win):
+            if o != f32(sum(win)):
                 return "pos %d: complete window %s gives %s, expected %s" % (i, win, o, sum(win))
         elif not valid:
-            if o != nd:
+            if o != ndf:
                 return "pos %d: all-nodata window gives %s" % (i, o)
-        elif o != nd and o != sum(valid):
+        elif o != ndf and o != f32(sum(valid)):
             return "pos %d: mixed window %s gives %s (neither nodata nor %s)" % (i, win, o, sum(valid))
     return None
 
@@ -72,8 +77,10 @@ def gen(ctx, rng):
     for _ in range(nrand):
         L = int(rng.integers(2, 120))
         ws = int(rng.integers(1, L + 1))
-        nd = int(rng.choice([ND, 0, -1, 255, 32767, -32768, 7]))
         dtype = str(rng.choice(["int16", "int32", "int64", "float32"]))
+        nd = int(rng.choice([ND, 0, -1, 255, 32767, -32768, 7]))
+        if dtype in ("int32", "int64") and rng.random() < 0.5:   # sentinels that binary32 cannot represent
+            nd = int(rng.choice([2147483647, -2147483647, 16777217, -99999999, -2147483648]))
         rows = []
         for _r in range(4):
             gapf = rng.choice([0.0, 0.1, 0.5, 0.9, 1.0])
@@ -170,16 +177,13 @@ def run(ctx):
     # ---- rolling kernel
     for b, r in zip(flat_roll, res["rolling"]):
         for x, o in zip(b["xx"], r["out"]):
-            oi = as_ints(o)
+            oi = o
             m = dict(kind="rolling_sum", xx=x, ws=b["ws"], nd=b["nd"], dtype=b["dtype"], out=o)
             dist["rolling"] += 1
             note_len(len(x))
             n_exh += 1 if b["exhaustive"] else 0
             if r["dtype"] != "float32":
                 spec_fail.append((m, "output dtype %s" % r["dtype"]))
-            if oi is None:
-                spec_fail.append((m, "non-integral output"))
-                continue
             why = spec_rolling(x, b["ws"], b["nd"], oi)
             if why:
                 spec_fail.append((m, why))
@@ -188,7 +192,7 @@ def run(ctx):
                 dist["mixed_windows"] += 1
             if nmiss:
                 dist["nodata_windows"] += 1
-            cases.append("RC %s %d%%nat %s %s" % (zlist(x), b["ws"], zlit(b["nd"]), zlist(oi)))
+            cases.append("RC %s %d%%nat %s %s" % (zlist(x), b["ws"], zlit(b["nd"]), flist(oi)))
             meta.append(m)
     # nodata-independence pairs on the implementation
     base = len(rolling)
@@ -198,7 +202,7 @@ def run(ctx):
         for j, (u, v) in enumerate(zip(o1, o2)):
             if j < b1["ws"] - 1:
                 continue
-            if not ((u == b1["nd"] and v == b2["nd"]) or u == v):
+            if not ((u == f32(b1["nd"]) and v == f32(b2["nd"])) or u == v):
                 spec_fail.append((dict(kind="rolling_pair", a=b1, b=b2, out_a=o1, out_b=o2),
                                   "pos %d: %s vs %s under two nodata encodings" % (j, u, v)))
     r1 = core.eval_cases("C17", "roll", PRE, cases, "check_rolling", shard=2500)
@@ -214,16 +218,13 @@ def run(ctx):
         for yy in range(cube.shape[0]):
             for xi in range(cube.shape[1]):
                 x = [int(v) for v in cube[yy, xi]]
-                oi = as_ints(o[yy, xi].tolist())
+                oi = o[yy, xi].tolist()
                 m = dict(m0, xx=x, out=o[yy, xi].tolist())
                 dist["rolling_acc"] += 1
-                if oi is None:
-                    spec_fail.append((m, "non-integral output"))
-                    continue
                 why = spec_rolling(x, b["ws"], b["nd"], oi, kernel=False)
                 if why:
                     spec_fail.append((m, why))
-                acases.append("RC %s %d%%nat %s %s" % (zlist(x), b["ws"], zlit(b["nd"]), zlist(oi)))
+                acases.append("RC %s %d%%nat %s %s" % (zlist(x), b["ws"], zlit(b["nd"]), flist(oi)))
                 ameta.append(m)
     r2 = core.eval_cases("C17", "racc", PRE, acases, "check_rolling_acc", shard=2500)
     # ---- mean_grp kernel
@@ -280,7 +281,7 @@ def run(ctx):
             ctx.violation("Coq could not evaluate the %s cases" % tag, dict(kind="coq-eval-error", log=lg), found_input=False)
     # ---- break protocol
     if spec_fail:
-        spec_fail.sort(key=lambda t: len(str(t[0].get("xx", ""))))
+        spec_fail.sort(key=lambda t: len(str(t[0])))
         m, why = spec_fail[0]
         ctx.violation(why, dict(kind="spec", case=m, n_failing=len(spec_fail)))
     else:
@@ -299,7 +300,7 @@ def replay(ctx, path):
     if c.get("kind") in ("rolling_sum",):
         res, log = core.run_impl("c17_impl.py", dict(rolling=[dict(xx=[c["xx"]], ws=c["ws"], nd=c["nd"], dtype=c["dtype"])]))
         o = res["rolling"][0]["out"][0]
-        why = spec_rolling(c["xx"], c["ws"], c["nd"], as_ints(o) or o)
+        why = spec_rolling(c["xx"], c["ws"], c["nd"], o)
         print("replay:", c, "->", o, "|", why or "property holds")
         return 1 if why else 0
     if c.get("kind") == "mean_grp":
